@@ -886,7 +886,8 @@ def phase_set_mismatch(evW, evR):
 def tangent_cached_start_class(method, q, vW, vRef, mk, events):
     """True when every point of a 'tangent' driving-force call whose value differs from the reference was solved on the
     warmed object by the parallel-tangent local equilibrium started from the CACHED precipitate composition set (event
-    'L' on [prec] without GE, start given) and without any sampling — while the reference started from a fresh sample."""
+    'L' on [prec] without GE, start given) with no sampling before that solve — while the reference started from a fresh
+    sample.  (Sampling after the cached-start solve is its fallback when that solve collapsed onto the matrix.)"""
     if method != 'tangent' or q['name'] != 'df' or vW is None or vRef is None:
         return False
     try:
@@ -901,8 +902,11 @@ def tangent_cached_start_class(method, q, vW, vRef, mk, events):
         return False           # the driving forces agree: whatever differs is not this class
     for i in bad:
         ev = events[dfm[i][3]:dfm[i][4]]
-        cached = any(e[0] == 'L' and len(e[1]) == 1 and e[3] is None and e[2] for e in ev)
-        if not cached or any(e[0] == 'S' for e in ev):
+        first = next((k for k, e in enumerate(ev) if e[0] == 'L' and len(e[1]) == 1 and e[3] is None and e[2]), None)
+        # sampling BEFORE the cached-start solve means the solve did not start from the cache; sampling AFTER it is the
+        # documented fallback when the cached-start solve collapsed onto the matrix (the same class: the cached start reached
+        # another stationary point - the collapsed one - and the answer is the sampled value instead of the tangent value)
+        if first is None or any(e[0] == 'S' for e in ev[:first]):
             return False
     return True
 
